@@ -1,6 +1,6 @@
 (* Source-level corollaries (SourcePeak): property theorems restated about the generated definitions, through the tie lemmas. *)
 From Coq Require Import String ZArith NArith Arith List Bool Permutation Sorted Lia.
-From CE Require Import Num OField Mz Peak PeakSpec PeakProofs.
+From CE Require Import Num OField Mz Peak PeakSpec PeakProofs PeakFrame.
 From CE Require Import PeakGen PeakTie.
 Import ListNotations.
 Local Open Scope nat_scope.
@@ -46,6 +46,27 @@ Section PeakSrc.
     ignore_below_gen N p t = normalize_gen N (mkTip (filter (fun q => leb N t (inten q)) (peaks p)) (origin p))
     /\ (forall q, In q (filter (fun q => leb N t (inten q)) (peaks p)) <-> In q (peaks p) /\ leb N t (inten q) = true).
   Proof. intros p t. rewrite ignore_below_tie, normalize_tie. exact (ignore_below_spec N p t). Qed.
+
+  (* frame laws (what the operations leave alone), about the generated definitions *)
+  Lemma frame_shift_src : forall (p : tip) off,
+    ints (shift_gen N p off) = ints p /\ length (peaks (shift_gen N p off)) = length (peaks p).
+  Proof. intros p off. rewrite shift_tie. exact (frame_shift N p off). Qed.
+  Lemma frame_normalize_src : forall (p : tip),
+    map mz (peaks (normalize_gen N p)) = map mz (peaks p) /\ length (peaks (normalize_gen N p)) = length (peaks p)
+    /\ origin (normalize_gen N p) = origin p.
+  Proof. intros p. rewrite normalize_tie. exact (frame_normalize N p). Qed.
+  Lemma frame_ignore_below_src : forall (p : tip) t,
+    map mz (peaks (ignore_below_gen N p t)) = map mz (filter (fun q => geb N (inten q) t) (peaks p))
+    /\ length (peaks (ignore_below_gen N p t)) <= length (peaks p)
+    /\ origin (ignore_below_gen N p t) = origin p.
+  Proof. intros p t. rewrite ignore_below_tie. exact (frame_ignore_below N p t). Qed.
+  Lemma frame_truncate_after_src : forall (p : tip) t,
+    exists k, map mz (peaks (truncate_after_gen N p t)) = firstn (S k) (map mz (peaks p))
+              /\ k <= Nat.pred (length (peaks p))
+              /\ length (peaks (truncate_after_gen N p t)) <= length (peaks p)
+              /\ (peaks p <> [] -> peaks (truncate_after_gen N p t) <> [])
+              /\ origin (truncate_after_gen N p t) = origin p.
+  Proof. intros p t. rewrite truncate_after_tie. exact (frame_truncate_after N p t). Qed.
 
   Lemma normalize_sum_src : OField N -> forall (p : tip),
     total_gen N p <> zero N -> total_gen N (normalize_gen N p) = one N.
